@@ -165,6 +165,15 @@ pub fn content_bytes(pt: Pt, n: usize, w: usize, content: Content, seed: u64) ->
     let ck = pt.comp_kind();
     let mut out = Vec::with_capacity(n * pt.size());
     let w = w.max(1);
+    // SparseAlpha: up to four translucent pixels, anywhere
+    let mut sparse = [usize::MAX; 4];
+    if content == Content::SparseAlpha && n > 0 {
+        let k = 1 + (seed % 4) as usize;
+        let mut r2 = Rng::new(seed ^ 0x5AA5);
+        for s in sparse.iter_mut().take(k) {
+            *s = r2.below(n as u64) as usize;
+        }
+    }
     for i in 0..n {
         let (x, y) = (i % w, i / w);
         for c in 0..comps {
@@ -181,6 +190,17 @@ pub fn content_bytes(pt: Pt, n: usize, w: usize, content: Content, seed: u64) ->
                         0
                     } else {
                         0xffff
+                    }
+                }
+                Content::Opaque | Content::SparseAlpha => {
+                    if is_alpha {
+                        if content == Content::SparseAlpha && sparse.contains(&i) {
+                            ((r >> 24) & 0xfffe) as u32
+                        } else {
+                            0xffff
+                        }
+                    } else {
+                        (r & 0xffff) as u32
                     }
                 }
                 Content::AlphaEdges => {
@@ -201,7 +221,7 @@ pub fn content_bytes(pt: Pt, n: usize, w: usize, content: Content, seed: u64) ->
                 1 => out.extend_from_slice(&(v16 as u16).to_ne_bytes()),
                 2 => {
                     let v: i32 = match content {
-                        Content::Random | Content::AlphaEdges => (r >> 16) as i32,
+                        Content::Random | Content::AlphaEdges | Content::Opaque | Content::SparseAlpha => (r >> 16) as i32,
                         Content::Zeros => 0,
                         Content::Ones => i32::MAX,
                         Content::Checker => {
